@@ -82,7 +82,7 @@ pub fn impl_term(text: &str) -> (String, usize, Option<Vec<BdlBlock>>) {
 
 fn case_of(text: &str, js: Value, nontrivial: bool) -> Case {
     let (it, _, _) = impl_term(text);
-    Case { term: format!("mkC18 {}\n ({})", clines(text), it), post: String::new(), json: js, nontrivial }
+    Case { term: format!("CBdl (mkC18 {}\n ({}))", clines(text), it), post: String::new(), json: js, nontrivial }
 }
 
 // ---------- abstract documents and their printer ----------
@@ -460,7 +460,7 @@ pub fn run(a: &Args) -> Batch {
             impl_findings.push(json!({"kind": "written_value_not_recovered", "doc": i, "seed": a.seed, "detail": d, "text": text.chars().take(3000).collect::<String>(), "classes": ["written_value_not_recovered"]}));
         }
         cases.push(Case {
-            term: format!("mkC18 {}\n ({})", clines(&text), it),
+            term: format!("CBdl (mkC18 {}\n ({}))", clines(&text), it),
             post: String::new(),
             json: json!({"kind": "printed document", "doc": i, "blocks": doc.len(), "crlf": lay.crlf, "preamble": lay.preamble, "noise": lay.noise, "oracle_difference": diff}),
             nontrivial: doc.iter().any(|b| !b.attrs.is_empty()),
@@ -471,17 +471,36 @@ pub fn run(a: &Args) -> Batch {
     std::fs::create_dir_all(&a.out).unwrap();
     let mut rt = r.fork(77);
     let typed_stats = crate::p18b::typed_elements(&mut rt, nt, &mut impl_findings);
-    let kyg_stats = crate::p18b::kyg_files(&mut rt, nt, &mut impl_findings);
+    let mut kyg_texts = vec![];
+    let kyg_stats = crate::p18b::kyg_files(&mut rt, nt, &mut impl_findings, &mut kyg_texts);
+    // KyG files also go through the Coq model: the shipped ones, printed ones, and printed ones with one damaged line
+    let mut kyg_cases: Vec<(String, String)> = crate::p19::files().into_iter().filter(|f| f.kind == 2).map(|f| (format!("shipped {}", f.name), f.text)).collect();
+    let nk = if a.thorough { kyg_texts.len() } else { 40.min(kyg_texts.len()) };
+    for (i, t) in kyg_texts.iter().take(nk).enumerate() {
+        kyg_cases.push((format!("printed {}", i), t.clone()));
+        if i % 2 == 0 {
+            let nl = t.split_inclusive('\n').count().max(1);
+            if let Some(d) = crate::p19::damage(t, rt.below(nl), [0usize, 1, 4, 5, 6][rt.below(5)], rt.below(10)) {
+                kyg_cases.push((format!("printed {} with one damaged line", i), d));
+            }
+        }
+    }
+    let mut nkyg = 0usize;
+    for (label, t) in &kyg_cases {
+        let (term, cls) = crate::p18b::kyg_case(t);
+        nkyg += 1;
+        cases.push(Case { term, post: String::new(), json: json!({"kind": "KyGananciasSolares.txt", "file": label, "parser": (["accepted", "rejected", "crashed"][cls])}), nontrivial: true });
+    }
     let tbl_stats = crate::p18b::tbl_files(&mut rt, nt, &a.out, &mut impl_findings);
     Batch {
-        imports: "From Coq Require Import ZArith NArith QArith List String.\nFrom CTE Require Import Base.Num Model.Bdl Model.BdlCase.\nLocal Open Scope string_scope.".into(),
-        case_ty: "c18case".into(),
-        agree: "agree_C18".into(),
+        imports: "From Coq Require Import ZArith NArith QArith List String.\nFrom CTE Require Import Base.Num Model.Bdl Model.BdlCase Model.Kyg Model.KygCase.\nLocal Open Scope string_scope.".into(),
+        case_ty: "c18any".into(),
+        agree: "agree_C18any".into(),
         cases,
         impl_findings,
         rule: "real files = BDL text of the shipped .ctehexml projects and legacy .cte files (all in the thorough tier, a seeded slice of 8 of those under 150 kB in the quick tier), as shipped and re-printed from their parsed blocks in another layout (indentation, spacing around '=', CRLF, comment lines); printed documents = 1..40 blocks of any of the 53 block types with 0..8 attributes: numbers (integers, decimals, signs, leading/trailing dot, lower and upper case exponents, f32 extremes), bare words, quoted strings (empty, with '=', '$', parentheses, numeric content), one-line and multi-line lists (closing parenthesis on the last item or on its own line), under random indentation, trailing blanks, blank and comment lines, CRLF, and the legacy LIDER preamble; names are identifiers that are not numeric literals; non-trivial = some block has attributes. Besides the Coq cases, three differential tests in Rust (no theorem): MATERIAL / GLASS-TYPE / NAME-FRAME / BUILDING-SHADE / WINDOW blocks with random values, optional attributes (legacy defaults) and attribute order through bdl::Data::new; KyGananciasSolares.txt in both column layouts with either decimal separator; NewBDL_O.tbl files - every written value must come back bit-exactly".into(),
         stats: json!({"real_files": nreal, "real_files_reprinted": nreprinted, "printed_documents": a.n, "printed_blocks": nblocks, "printed_attributes": nattrs,
                        "attribute_kinds": {"number": kinds[0], "word": kinds[1], "quoted": kinds[2], "list": kinds[3]},
-                       "typed_elements": typed_stats, "kyg": kyg_stats, "tbl": tbl_stats}),
+                       "typed_elements": typed_stats, "kyg": kyg_stats, "kyg_files_in_coq": nkyg, "tbl": tbl_stats}),
     }
 }
